@@ -452,6 +452,8 @@ pub fn forest_gen_cfg(rng: &mut Rng) -> GenCfg {
     cfg.fragment = rng.chance(1, 3);
     cfg.top_misc = rng.chance(1, 3);
     cfg.xml_space = rng.chance(1, 6);
+    // isolated empty text nodes (new_text("") / text_mut().set("")) are legal trees too
+    cfg.allow_empty_text = rng.chance(1, 3);
     cfg
 }
 
